@@ -21,6 +21,15 @@ types, assume_specifications, spec functions, lemmas):
   //@dropstmt <needle> | <replacement>   the statement of the body that STARTS with <needle> (up to its terminating `;` at the same
                                       nesting depth) is replaced by <replacement>.  Used only for a statement whose closure argument is
                                       outside Verus' subset; the dropped text is recorded (it is NOT verified) - see DESIGN 9.2 rule 11
+  //@liftretain <needle> | <name> | <container type> | <extra locals `a: T, b: U`>
+  //@lift| <clause>                  the statement `RECV.retain(|PAT| { BODY });` that starts with <needle> is rewritten (DESIGN 9.2 rule 14):
+                                      (1) the closure is LIFTED into `fn <name>(<captures>, PAT: &Elem) -> (keep: bool) <//@lift| clauses> { BODY }`
+                                          - BODY byte-for-byte; captures = the enclosing fn's parameters, `let [mut] x = true|false;` locals and the
+                                          listed extra locals whose names occur free in BODY (passed by value / reborrow);
+                                      (2) the statement becomes the loop that std documents for retain (each element visited exactly once, front to
+                                          back, kept iff the closure returns true, order of kept elements preserved):
+                                          `let mut verif_kept = <container>::new(); for PAT in verif_it: RECV.iter() { if <name>(..) { verif_kept.push_back(*PAT); } } RECV = verif_kept;`
+                                      //@lift.pre | <ghost text> goes before that loop, //@lift.post | <ghost text> at the end of its body.
   //@continue_to_else <ordinal>      in the body of the n-th loop (a `for`), `if COND { continue; } REST` becomes `if COND {} else { REST }`
                                       (Verus' for-loops do not support `continue`; same control flow) - DESIGN 9.2 rule 12
   //@loopbody <ordinal> | <text>     ghost/proof line placed right after the opening brace of the n-th loop's body (erased code)
@@ -177,6 +186,83 @@ def _replace_statement(body, needle, rep, fname):
     return body[:start] + rep + body[end + 1:], body[start:end + 1]
 
 
+
+def _lift_retain(body, sig, needle, name, container, extra, pre, post, fname):
+    """Rule 14. Returns (new_body, lifted_fn_text_without_clauses(header, body), info)."""
+    rx = re.compile(r'\s*'.join(re.escape(tok) for tok in needle.split()))
+    start = None
+    for j, d in rc.code_positions(body):
+        if rx.match(body, j) and (j == 0 or not (body[j - 1].isalnum() or body[j - 1] == '_')):
+            start = j; break
+    if start is None:
+        raise CutError('fn %s: retain statement not found: %s' % (fname, needle))
+    depth, end = 0, None
+    for k, d in rc.code_positions(body, start):
+        c = body[k]
+        if c in '([{': depth += 1
+        elif c in ')]}': depth -= 1
+        elif c == ';' and depth == 0:
+            end = k; break
+    if end is None:
+        raise CutError('fn %s: end of retain statement not found' % fname)
+    stmt = body[start:end + 1]
+    m = re.match(r'(?s)\s*([A-Za-z_][A-Za-z0-9_]*)\s*\.\s*retain\s*\(\s*\|\s*([A-Za-z_][A-Za-z0-9_]*)\s*\|\s*\{', stmt)
+    if not m:
+        raise CutError('fn %s: retain statement is not `RECV.retain(|x| { .. });`' % fname)
+    recv, pat = m.group(1), m.group(2)
+    ob = m.end() - 1
+    cb = rc.match_close(stmt, ob)
+    if not re.match(r'(?s)\s*\)\s*;\s*$', stmt[cb + 1:]):
+        raise CutError('fn %s: retain statement has text after the closure' % fname)
+    cbody = stmt[ob:cb + 1]
+    # capture candidates: parameters of the enclosing fn, bool-literal locals, listed locals
+    cands = []
+    po = sig.index('(')
+    pc = rc.match_close(sig, po, '(', ')')
+    depth, cur = 0, ''
+    for ch in sig[po + 1:pc] + ',':
+        if ch in '([<{': depth += 1
+        elif ch in ')]>}': depth -= 1
+        if ch == ',' and depth == 0:
+            if ':' in cur:
+                nm, ty = cur.split(':', 1)
+                nm = nm.strip()
+                if nm.startswith('mut '): nm = nm[4:].strip()
+                if re.match(r'^[A-Za-z_][A-Za-z0-9_]*$', nm):
+                    cands.append((nm, ty.strip()))
+            cur = ''
+        else:
+            cur += ch
+    for mm in re.finditer(r'\blet\s+(?:mut\s+)?([A-Za-z_][A-Za-z0-9_]*)\s*=\s*(true|false)\s*;', body[:start]):
+        cands.append((mm.group(1), 'bool'))
+    for item in [x for x in extra.split(',') if x.strip()]:
+        nm, ty = item.split(':', 1)
+        cands.append((nm.strip(), ty.strip()))
+    caps, seen = [], set()
+    code = set(j for j, d in rc.code_positions(cbody))
+    for nm, ty in cands:
+        if nm in seen or nm == pat:
+            continue
+        for mm in re.finditer(r'(?<![A-Za-z0-9_.])' + re.escape(nm) + r'(?![A-Za-z0-9_])', cbody):
+            if mm.start() in code:
+                caps.append((nm, ty)); seen.add(nm); break
+    elem = re.search(r'<(.*)>\s*$', container).group(1)
+    params = ', '.join(['%s: %s' % c for c in caps] + ['%s: &%s' % (pat, elem)])
+    args = ', '.join([c[0] for c in caps] + [pat])
+    header = 'pub fn %s(%s) -> (keep: bool)' % (name, params)
+    ind = '\n    '
+    loop = ('let mut verif_kept: %s = %s::new();' % (container, re.sub(r'<.*$', '', container)) + ind
+            + ''.join(l + ind for l in pre)
+            + 'for %s in verif_it: %s.iter()' % (pat, recv) + ind + '{' + ind
+            + '    if %s(%s) { verif_kept.push_back(*%s); }' % (name, args, pat) + ind
+            + ''.join('    ' + l + ind for l in post)
+            + '}' + ind + '%s = verif_kept;' % recv)
+    info = {'fn': fname, 'lifted': name, 'captures': ['%s: %s' % c for c in caps], 'closure_sha256': hashlib.sha256(cbody.encode()).hexdigest()[:16],
+            'statement_head': re.sub(r'\s+', ' ', stmt)[:100],
+            'assumed': 'std retain(f): every element visited exactly once, front to back; kept iff f returns true; order of kept elements preserved'}
+    return body[:start] + loop + body[end + 1:], header, cbody, info
+
+
 def _desugar_in_params(sig):
     """`In(pat) : In<T>` parameter => `verif_in : In<T>` + `let In(pat) = verif_in;` (Rust's own desugaring)."""
     lets = []
@@ -309,13 +395,23 @@ def expand(template_path, repo='/repo'):
             name = toks[-1]
             anchor = ' '.join(toks[:-1])
             clauses, loops, loopvars, ghosts, dropstmts, c2e, loopbodies, atend, befores = [], {}, {}, [], [], [], {}, [], []
+            lifts, lifted_out = [], []
             while i + 1 < len(tpl) and (tpl[i + 1].strip().startswith('//@|') or tpl[i + 1].strip().startswith('//@loop')
                                         or tpl[i + 1].strip().startswith('//@ghost') or tpl[i + 1].strip().startswith('//@dropstmt') or tpl[i + 1].strip().startswith('//@atend') or tpl[i + 1].strip().startswith('//@before')
-                                        or tpl[i + 1].strip().startswith('//@continue_to_else')):
+                                        or tpl[i + 1].strip().startswith('//@continue_to_else') or tpl[i + 1].strip().startswith('//@lift')):
                 i += 1
                 t = tpl[i].strip()
                 if t.startswith('//@|'):
                     clauses.append('        ' + t[4:].strip())
+                elif t.startswith('//@liftretain'):
+                    nd, nm, cont, extra = [x.strip() for x in t[len('//@liftretain'):].split('|', 3)]
+                    lifts.append({'needle': nd, 'name': nm, 'container': cont, 'extra': extra, 'clauses': [], 'pre': [], 'post': []})
+                elif t.startswith('//@lift.pre'):
+                    lifts[-1]['pre'].append(t.split('|', 1)[1].strip())
+                elif t.startswith('//@lift.post'):
+                    lifts[-1]['post'].append(t.split('|', 1)[1].strip())
+                elif t.startswith('//@lift|'):
+                    lifts[-1]['clauses'].append('        ' + t[len('//@lift|'):].strip())
                 elif t.startswith('//@before'):
                     nd, txt = t[len('//@before'):].split('|', 1)
                     befores.append((nd.strip(), txt.strip()))
@@ -378,6 +474,12 @@ def expand(template_path, repo='/repo'):
             for needle, rep in dropstmts:
                 body, what = _replace_statement(body, needle, rep, name)
                 side.setdefault('replaced_statements', []).append({'fn': name, 'dropped_sha256': hashlib.sha256(what.encode()).hexdigest()[:16], 'dropped_head': re.sub(r'\s+', ' ', what)[:120], 'replacement': rep})
+            for lf in lifts:
+                body, lh, lb, linfo = _lift_retain(body, sig, lf['needle'], lf['name'], lf['container'], lf['extra'], lf['pre'], lf['post'], name)
+                lifted_out.append('    #[verifier::exec_allows_no_decreases_clause]\n    ' + lh + '\n' + '\n'.join(lf['clauses']) + '\n    ' + lb)
+                linfo['clauses'] = [c.strip() for c in lf['clauses']]
+                linfo['file'] = f
+                side.setdefault('lifted_closures', []).append(linfo)
             for ordinal in c2e:
                 body = _continue_to_else(body, ordinal, name)
                 side.setdefault('normalized_loops', []).append('%s: loop %d: `if C { continue; } REST` -> `if C {} else { REST }`' % (name, ordinal))
@@ -408,6 +510,7 @@ def expand(template_path, repo='/repo'):
                 body = '{ unimplemented!() }'
                 out.append('    #[verifier::external_body]')
             out.append('    ' + sig.rstrip() + '\n' + '\n'.join(clauses) + '\n    ' + body)
+            out += lifted_out
             a, b = fn['span']
             side['functions'].append({
                 'file': f, 'anchor': anchor, 'fn': name,
